@@ -94,17 +94,23 @@ def var(name, sign=None):
     return Rat(Fraction(1), ((fid, 1),))
 
 
-def _prime_factors(n):
+def _prime_factors(n, bound=2000):
+    """trial division by primes up to `bound`; a remaining cofactor > 1 is kept whole (treated as one opaque
+    'prime' -- sound for the uses here: log(ab)=log a+log b and sqrt extraction only need SOME factorisation)."""
     n = abs(int(n))
     out = {}
     p = 2
-    while p * p <= n:
+    while p * p <= n and p <= bound:
         while n % p == 0:
             out[p] = out.get(p, 0) + 1
             n //= p
         p += 1 if p == 2 else 2
     if n > 1:
-        out[n] = out.get(n, 0) + 1
+        r = math.isqrt(n)
+        if r * r == n:
+            out[r] = out.get(r, 0) + 2
+        else:
+            out[n] = out.get(n, 0) + 1
     return out
 
 
@@ -1333,8 +1339,9 @@ def _eq_rat(t, r):
 def _log_enclosure(p):
     """rational enclosure of log(p) (p prime), width ~1e-15, outward."""
     v = math.log(p)
-    lo = Fraction(v) - Fraction(1, 10 ** 12)
-    hi = Fraction(v) + Fraction(1, 10 ** 12)
+    w = Fraction(1, 10 ** 12) * max(1, int(abs(v)))
+    lo = Fraction(v) - w
+    hi = Fraction(v) + w
     return lo, hi
 
 
